@@ -10,6 +10,40 @@ from .facts import AnalysisBroken
 from .report import Check
 
 
+def build_independence(chk):
+    """rule A0, applied to the repository functions of every program the check has analysed: no variable that the
+    function also uses elsewhere is modified inside the operand of assert().  The analysis sees the -UNDEBUG
+    expansion of assert(); a -DNDEBUG build drops the operand, and what the property rules decided about the
+    function would not hold for that build."""
+    from . import facts
+    from .rules import assert_side_effects
+    from .facts import walk, children, strip_all_casts, REPO
+    seen = set()
+    n = 0
+    for prog in facts.LOADED:
+        for f in prog.functions:
+            if f.body is None or not f.file.startswith(REPO) or '/test/' in f.file or (f.file, f.line, f.name) in seen:
+                continue
+            seen.add((f.file, f.line, f.name))
+            n += 1
+            for y in assert_side_effects(f):
+                tgt = strip_all_casts(children(y)[0]) if children(y) else {}
+                if tgt.get('k') == 'CXXOperatorCallExpr' or y.get('k') == 'CXXOperatorCallExpr':
+                    kids = [c for c in children(y) if c.get('k') != 'ImplicitCastExpr' or True]
+                    tgt = strip_all_casts(kids[1]) if len(kids) > 1 else tgt
+                ref = tgt.get('ref', {}) if tgt.get('k') in ('DeclRefExpr', 'MemberExpr') else {}
+                name = ref.get('name')
+                used_elsewhere = tgt.get('k') == 'MemberExpr' or sum(
+                    1 for x in f.walk() if x.get('k') in ('DeclRefExpr', 'MemberExpr') and
+                    x.get('ref', {}).get('name') == name) > 1
+                if name is None or used_elsewhere:
+                    chk.check(False, 'A0', f.name, 'no state change inside assert(): the function behaves the same with '
+                              'and without NDEBUG', f.loc(y), '%s is modified by the operand of assert(); a -DNDEBUG '
+                              'build drops the modification' % (name or 'a variable'))
+    chk.rule('A0', 'build independence: no state change inside assert() in the analysed functions', 0)
+    chk.ok('A0', '', 'functions scanned for state changes inside assert(): %d' % n)
+
+
 def main():
     try:
         signal.signal(signal.SIGPIPE, signal.SIG_DFL)
@@ -31,6 +65,7 @@ def main():
     chk = Check(pid, args.tier)
     try:
         mod.run(chk)
+        build_independence(chk)
         rc = chk.finish()
     except AnalysisBroken as e:
         if not chk.failures:
